@@ -33,7 +33,7 @@ JoinStr(q) == IF q = <<>> THEN "" ELSE q[1] \o (IF Len(q) > 1 THEN "," ELSE "") 
 C08Viol(e) ==
   IF e.outcome \in {"panic", "hang", "hang-in-rpc"}
   THEN {V("PanicOrHang", "type=" \o e.type \o " outcome=" \o e.outcome, e)}
-  ELSE LET r == VerdictRule(e.type, e.top, e.inner, e.outcome, e.errs) IN
+  ELSE LET r == VerdictRule(e.type, e.top, e.inner, e.outcome, e.errs, "same" \in DOMAIN e /\ e.same) IN
        IF r = "none" THEN {}
        ELSE {VI(r, "type=" \o e.type, "op=" \o e.op \o " top=[" \o JoinStr(e.top) \o "] inner=[" \o JoinStr(e.inner) \o "]", e)}
 (* one discriminator per (rule, reply type): the token sequence of the first failing case is kept *)
